@@ -76,6 +76,8 @@ type c16Src struct {
 	comment string // distinct per source: the merged profile's Comments list the contributors in merge order
 	tmd      bool // part of a timed case; sec/tmo repeat the case's -seconds / -timeout for the runner
 	sec, tmo int
+	pad      int  // round 7: "?pad=xxx..." of this length appended to the address (stat -> ENAMETOOLONG from ~4 KiB)
+	noScheme bool // round 7: the address is written host:port/path (adjustURL adds http://)
 	urlSec  string // round 6 (timed cases): "?seconds=<urlSec>" appended to the address ("" = none)
 	delayMs int    // round 6: the local server answers after this many milliseconds
 	unit    string // unit of the sample type ("" = "count"); round-5 header streams use time units
@@ -91,6 +93,8 @@ type c16Case struct {
 	fetch       bool // drive fetchProfiles (base subtraction included) instead of grabSourcesAndBases
 	// end-to-end layer (c16_e2e.go): drive driver.PProf.  srcs/bases are then TABLES of distinct source
 	// names; args[g] lists, by table index, what the command line names (repeats allowed).
+	names            bool // round 7: source NAMES that make os.Stat fail in other ways than "not found"
+	notdir           int  // round 7: 1 = a regular file "http:" exists in the cwd, 2 = one named like the plain server's host:port (stat -> ENOTDIR)
 	timed            bool // round 6: run with explicit source.Seconds / source.Timeout, record the client deadline
 	seconds, timeout int
 	e2e       int // 0 = off, else c16E2E* (which entry point / output is used)
@@ -327,6 +331,12 @@ func c16Run(cs c16Case) (obs Term) {
 			if s.urlSec != "" {
 				a += "?seconds=" + s.urlSec
 			}
+			if s.noScheme {
+				a = strings.TrimPrefix(a, "http://")
+			}
+			if s.pad > 0 {
+				a += "?pad=" + strings.Repeat("x", s.pad)
+			}
 			addrs[grp] = append(addrs[grp], a)
 			index[a] = c16Ev{grp, i}
 			env.gates[a] = &c16Gate{arrived: make(chan struct{}), release: make(chan struct{}), returned: make(chan struct{})}
@@ -356,6 +366,14 @@ func c16Run(cs c16Case) (obs Term) {
 			os.Remove(f)
 		}
 	}()
+	if cs.notdir != 0 {
+		blocker := "http:"
+		if cs.notdir == 2 {
+			blocker = strings.TrimPrefix(c16StartServers().plain.URL, "http://")
+		}
+		os.WriteFile(blocker, []byte("c16: a regular file where a URL's first path component would be\n"), 0o644)
+		defer os.Remove(blocker)
+	}
 	// controller: release the gates in the scripted order, each after the previous fetch returned
 	done := make(chan struct{})
 	finished := make(chan struct{}) // closed when the implementation has returned
@@ -586,6 +604,19 @@ func c16Input(cs c16Case) Term {
 			flags |= 2
 		}
 		return L(L(a...), L(b...), L(o...), S("pprof"), L(Zs(c16I64(cs.args[0])), Zs(c16I64(cs.args[1])), ZI(cs.e2e), ZI(flags)))
+	}
+	if cs.names {
+		var codes []Term
+		for _, l := range [][]c16Src{cs.srcs, cs.bases} {
+			for _, s := range l {
+				ns := 0
+				if s.noScheme {
+					ns = 1
+				}
+				codes = append(codes, L(ZI(s.pad), ZI(ns)))
+			}
+		}
+		return L(L(a...), L(b...), L(o...), S("names"), L(ZI(cs.notdir), L(codes...)))
 	}
 	if cs.fetch {
 		return L(L(a...), L(b...), L(o...), S("fetch"))
@@ -990,6 +1021,7 @@ func runC16(c *Ctx) {
 	c.c16E2EStreams()
 	c.c16HeaderStreams()
 	c.c16DeadlineStreams()
+	c.c16NameStreams()
 	c.c16Flush()
 	c.Extra["controller_stalls"] = c16Stalls
 }
